@@ -406,9 +406,8 @@ pub mod c16_c18_c19__default_prog {
                    stmt_inc = 5, stmt_dec = 6, stmt_input = 7, stmt_output = 8, stmt_rounding = 10,
                    stmt_continue = 11, stmt_break = 12, stmt_return = 15,
                    stmt_function = 16, stmt_function_call = 17);
-    //@slow-begin   (4-5 min of symbolic execution each: large by-value enum payloads)
-    stmt_dispatch!(stmt_assignment = 0, stmt_mutation = 9, stmt_array_push = 13, stmt_array_pop = 14);
-    //@slow-end
+    // (assignment = 0, mutation = 9, array_push = 13, array_pop = 14 take 5-20 min of symbolic execution each — large by-value enum
+    //  payloads — and were removed; all 18 kinds are proved without bound by the Verus unit visit_defaults)
 
     prog_recorder!(RList; visit_statement, visit_block);
     #[kani::proof]
